@@ -52,6 +52,13 @@ def mk_device(kind, inp=None):
 
     if kind == "mock":
         return MockDevice
+    if kind == "mock_noise":
+        # a virtual device that carries a default noise model
+        import dataclasses
+
+        from pulser.noise_model import NoiseModel
+
+        return dataclasses.replace(MockDevice, name="MockNoise", default_noise_model=NoiseModel(relaxation_rate=0.125, dephasing_rate=0.25))
     if kind == "analog":
         return AnalogDevice
     if kind == "digital":
